@@ -82,14 +82,34 @@ InputNames(c, j) == IF c.conv = "ids" THEN Ups(c, j) ELSE ToSet(c.needs[j])
 (* execution consumed (configured comparison), and an Output job's result  *)
 (* exists.  cur = current output of each job (partial function).           *)
 (***************************************************************************)
+(***************************************************************************)
+(* try_finding_renamed_multi_output_job: the historical upstream of d      *)
+(* sharing the most output names with the (now differently named) u.       *)
+(* The code takes the first maximum in hash order; ties are resolved here  *)
+(* by CHOOSE (deviation: tie order is not modelled).                       *)
+(***************************************************************************)
+Overlap(c, x, u) == Cardinality(ToSet(c.idnames[x]) \cap ToSet(c.idnames[u]))
+RenamedFor(c, u, d) ==
+  LET cands == {x \in ToSet(c.ids) : EKey(x, d) \in DOMAIN c.hist0 /\ Overlap(c, x, u) > 0}
+      best == {x \in cands : \A y \in cands : Overlap(c, y, u) <= Overlap(c, x, u)}
+  IN IF cands = {} THEN <<>> ELSE <<CHOOSE x \in best : TRUE>>
+
+(* the record of what j last consumed from u: under u's present id, or - when u is a job whose
+   id changed because it gained or lost outputs - under the historical id sharing the most output
+   names with it *)
+EdgeRec(c, u, j) ==
+  IF EKey(u, j) \in DOMAIN c.hist0 THEN <<c.hist0[EKey(u, j)]>>
+  ELSE LET r == RenamedFor(c, u, j) IN
+       IF r # <<>> THEN <<c.hist0[EKey(r[1], j)]>> ELSE <<>>
+
 UpToDate(c, cur, present, j) ==
   /\ OKey(j) \in DOMAIN c.hist0
   /\ NKey(j) \in DOMAIN c.hist0
   /\ ToSet(c.hist0[NKey(j)].names) = InputNames(c, j)
   /\ \A u \in Ups(c, j) :
-        /\ EKey(u, j) \in DOMAIN c.hist0
+        /\ EdgeRec(c, u, j) # <<>>
         /\ u \in DOMAIN cur
-        /\ ~Altered(c, j, c.hist0[EKey(u, j)], cur[u])
+        /\ ~Altered(c, j, EdgeRec(c, u, j)[1], cur[u])
   /\ (c.kind[j] = "O" => j \in present)
 
 (***************************************************************************)
